@@ -23,6 +23,7 @@ import (
 	"bufio"
 	"fmt"
 	"math/rand"
+	"os"
 	"runtime"
 	"sort"
 	"strconv"
@@ -59,9 +60,9 @@ func (g *gen) apiLine(t0, nt, s0, ns int, allowShutdown bool) string {
 	case k < 70:
 		g.ev++
 		return fmt.Sprintf("pub %d %d", t, g.ev)
-	case k < 82:
+	case k < 83:
 		return fmt.Sprintf("close %d", t)
-	case k < 94:
+	case k < 97:
 		return fmt.Sprintf("unsub %d", s)
 	default:
 		if allowShutdown {
@@ -107,42 +108,6 @@ func (g *gen) seqCase(id string) {
 		for g.r.Intn(3) == 0 {
 			fmt.Fprintln(g.w, g.apiLine(0, nt, 0, ns, true))
 		}
-	}
-}
-
-// parallel blocks; disjoint=true: producer p owns topics {2p,2p+1} and subscribers {2p,2p+1}
-func (g *gen) parCase(id string, disjoint bool) {
-	g.ev = 0
-	fmt.Fprintf(g.w, "case %s\n", id)
-	if disjoint && g.r.Intn(5) == 0 {
-		// startup after the first block: the queue is filled by concurrent producers first
-	} else {
-		fmt.Fprintln(g.w, "startup")
-	}
-	started := false
-	nblocks := 1 + g.r.Intn(3)
-	for b := 0; b < nblocks; b++ {
-		np := 2 + g.r.Intn(3)
-		nt, ns := 1+g.r.Intn(2), 1+g.r.Intn(3)
-		for p := 0; p < np; p++ {
-			n := 1 + g.r.Intn(12)
-			for i := 0; i < n; i++ {
-				if disjoint {
-					fmt.Fprintf(g.w, "@%d %s\n", p, g.apiLine(2*p, 2, 2*p, 2, false))
-				} else {
-					fmt.Fprintf(g.w, "@%d %s\n", p, g.apiLine(0, nt, 0, ns, g.r.Intn(4) == 0))
-				}
-			}
-		}
-		if b == 0 && !started {
-			// harmless if startup was already printed: a second startup line is only written when none was
-		}
-		if g.r.Intn(2) == 0 {
-			fmt.Fprintln(g.w, "sync")
-		}
-	}
-	if g.r.Intn(100) < 80 {
-		fmt.Fprintln(g.w, "shutdown")
 	}
 }
 
@@ -305,9 +270,7 @@ func (r *recSub) OnClose(t notifications.Topic) {
 type sentinelTopic struct{}
 
 type sentinel struct {
-	next   chan int
-	closed chan struct{}
-	once   sync.Once
+	next chan int
 }
 
 func (s *sentinel) OnNext(_ notifications.Topic, e notifications.Event) {
@@ -318,9 +281,24 @@ func (s *sentinel) OnNext(_ notifications.Topic, e notifications.Event) {
 		}
 	}
 }
-func (s *sentinel) OnClose(notifications.Topic) { s.once.Do(func() { close(s.closed) }) }
+func (s *sentinel) OnClose(notifications.Topic) {}
 
-const barrierTimeout = 2 * time.Second
+// Barrier timeouts.  On code where the property holds no barrier ever times out; the first
+// timeout of a run waits long (loaded machine), later ones ever shorter, and after 100 the run
+// is abandoned (exit status 3: the check reports a broken tie).
+var timeouts int
+
+func barrierTimeout() time.Duration {
+	switch {
+	case timeouts == 0:
+		return 3 * time.Second
+	case timeouts == 1:
+		return 500 * time.Millisecond
+	case timeouts == 2:
+		return 100 * time.Millisecond
+	}
+	return 30 * time.Millisecond
+}
 
 // ---------------------------------------------------------------- run
 
@@ -384,14 +362,8 @@ func (r *runner) do(c apiCall) string {
 }
 
 func (r *runner) waitExit() {
-	deadline := time.Now().Add(barrierTimeout)
-	if r.sentSub {
-		select {
-		case <-r.sent.closed:
-		case <-time.After(barrierTimeout):
-			r.timedOut = true
-		}
-	}
+	// the goroutine started by Startup returns after the final sweep
+	deadline := time.Now().Add(barrierTimeout())
 	for spins := 0; runtime.NumGoroutine() > r.baseG; spins++ {
 		if spins < 200 {
 			runtime.Gosched()
@@ -399,6 +371,7 @@ func (r *runner) waitExit() {
 		}
 		if time.Now().After(deadline) {
 			r.timedOut = true
+			timeouts++
 			return
 		}
 		time.Sleep(20 * time.Microsecond)
@@ -423,7 +396,7 @@ func (r *runner) barrier() {
 	}
 	r.sentN++
 	r.ps.Publish(sentinelTopic{}, r.sentN)
-	t := time.NewTimer(barrierTimeout)
+	t := time.NewTimer(barrierTimeout())
 	defer t.Stop()
 	for {
 		select {
@@ -433,6 +406,7 @@ func (r *runner) barrier() {
 			}
 		case <-t.C:
 			r.timedOut = true
+			timeouts++
 			return
 		}
 	}
@@ -519,13 +493,21 @@ func Run(cases []reg.Case, out *reg.Out, conc bool) {
 	for _, c := range cases {
 		out.BeginCase(c)
 		runCase(c, out, conc)
+		if timeouts > 0 {
+			out.W.Flush()
+		}
+		if timeouts >= 100 {
+			out.Finish()
+			fmt.Fprintln(os.Stderr, "publisher harness: 100 barrier timeouts, giving up")
+			os.Exit(3)
+		}
 	}
 }
 
 func runCase(c reg.Case, out *reg.Out, conc bool) {
 	r := &runner{
 		ps: notifications.NewPublisher(), h: &hub{}, subs: map[int]*recSub{},
-		sent:      &sentinel{next: make(chan int, 64), closed: make(chan struct{})},
+		sent:      &sentinel{next: make(chan int, 64)},
 		baseG:     runtime.NumGoroutine(),
 		useLinMu:  conc,
 		startedAt: -1, out: out,
@@ -573,14 +555,13 @@ func runCase(c reg.Case, out *reg.Out, conc bool) {
 					resMu.Unlock()
 				}(p, byProd[p])
 			}
+			g0 := runtime.NumGoroutine() - len(order)
 			close(startGate)
 			wg.Wait()
-			// producers have returned from wg.Done but may not have exited yet
-			for runtime.NumGoroutine() > r.baseG+boolInt(r.started && !r.exitedMaybe()) {
+			// producers have passed wg.Done but may not have exited yet: wait until they are gone so
+			// that later goroutine counts are exact
+			for spins := 0; runtime.NumGoroutine() > g0 && spins < 100000; spins++ {
 				runtime.Gosched()
-				if r.shutCall {
-					break
-				}
 			}
 			if !conc {
 				// file order is a valid linearisation (disjoint producers)
@@ -671,16 +652,6 @@ func runCase(c reg.Case, out *reg.Out, conc bool) {
 		r.waitExit()
 	}
 }
-
-func boolInt(b bool) int {
-	if b {
-		return 1
-	}
-	return 0
-}
-
-// exitedMaybe: after Shutdown was called the publisher goroutine may or may not still be alive
-func (r *runner) exitedMaybe() bool { return r.shutCall }
 
 // ---------------------------------------------------------------- oracle
 
